@@ -637,7 +637,7 @@ func (t *tr) mayPanic(n ast.Node) bool {
 		case *ast.SliceExpr, *ast.ForStmt, *ast.RangeStmt, *ast.StarExpr:
 			found = true
 		case *ast.CallExpr:
-			if t.optCallee(n) != nil {
+			if t.isOptCall(n) {
 				found = true
 			}
 			if id, ok := n.Fun.(*ast.Ident); ok {
